@@ -326,6 +326,15 @@ def judge(ctx, case):
                     ctx.mismatch(f'C05|pack-list-format|{ic}|{shape(got2, False)}', case, f'{[f1, f2]!r:.150}')
                 else:
                     ctx.ok(('pack-list',) + key, nontrivial)
+                # formats compose: after having been used together, each part on its own still builds its own bits
+                v1 = positional_values(flatten(tree[:k]))
+                v2 = positional_values(flatten(tree[k:]))
+                got3 = call(lambda: B(pack(f1, *v1, **r2.kw)) + B(pack(f2, *v2, **r2.kw)))
+                ctx.op('compose', 'ok' if got3[0] == 'ok' else type(got3[1]).__name__)
+                if got3 != ('ok', exp):
+                    ctx.mismatch(f'C05|compose|pack-parts-after-list-use|{shape(got3, False)}', case, f'{f1!r:.80} then {f2!r:.80}: {got3[1]!s:.80}')
+                else:
+                    ctx.ok(('compose-parts',) + key[:1], nontrivial)
             # ---- error cases made from the valid one -------------------------------------------------------------
             if vals:
                 g = call(lambda: pack(fmt, *vals[:-1], **kw))
